@@ -1,4 +1,295 @@
-import AriadneModel.Model.Order
-import AriadneModel.Spec.Isort
+/-
+  C10 — Generation is deterministic and idempotent.
+
+  "Generating twice from the same schema, operations and configuration (comment mode other than
+   timestamp) yields byte-identical files, whatever the interpreter's hash seed, the order in which
+   schema/query files were created in their directory, or whether the target directory already
+   holds a previous generation of the same inputs.  The same holds for the graphqlschema strategy."
+
+  Models: Model/Order.lean (every place where a Python set / dict-of-sets / directory listing feeds
+  emitted order, with an enumeration oracle `e` about which only `EnumOK e : ∀ s, (e s).Perm s` is
+  known), Model/OrderEmit.lean (what of it reaches the files through autoflake/isort/black),
+  Spec/Isort.lean (isort's ordering of imported names; validated, not verified).
+
+  Hash seed        ↦ the enumeration oracle `e` (two runs = two oracles).
+  Creation order   ↦ the directory-listing oracle `dirList` of `loadGraphqlFiles`.
+  Existing target  ↦ the `dir` argument of `runWrites` and the flags isort derives from it.
+
+  Result on the pinned tree: the full statement is FALSE (`C10_full_false`): names that reach one
+  `from m import …` out of a set keep their set order when they tie on isort's case-insensitive
+  natural key (finding C10-F2).  Outside that trigger the package is oracle independent
+  (`C10_partial`).  Regeneration is idempotent unless a formatted file is sensitive to isort's view
+  of the working directory (finding C10-F3, `regenerate_idempotent`).  The regression witness of the
+  repaired finding C10-F1 is `topo_order_depended_on_enum_before_fix`.
+-/
+import AriadneModel.Proofs.OrderPkg
+
+set_option linter.unusedVariables false
+
 namespace Ariadne.C10
+open Ariadne.Order Ariadne.Isort
+
+/-! ## 1. `_get_sorted_fragments_names` -/
+
+/-- (must) Since 0834f0f the class order of fragments.py does not depend on set iteration. -/
+theorem sorted_fragments_oracle_independent (e₁ e₂ : EnumOracle) (he₁ : EnumOK e₁) (he₂ : EnumOK e₂)
+    (names : List Name) (d : Deps) :
+    sortedFragmentsNames e₁ names d = sortedFragmentsNames e₂ names d := by
+  have hord : (fun s => pySorted (e₁ s)) = (fun s => pySorted (e₂ s)) := by
+    funext s; exact pySorted_eq_of_perm ((he₁ s).trans (he₂ s).symm)
+  unfold sortedFragmentsNames
+  rw [hord, pySorted_eq_of_perm ((he₁ names).trans (he₂ names).symm)]
+
+/-- (must) … and not on how the set of names and the dictionary of dependency sets are listed. -/
+theorem sorted_fragments_listing_independent (e : EnumOracle) (he : EnumOK e) {names₁ names₂ : List Name} {d₁ d₂ : Deps}
+    (hn : names₁.Perm names₂) (hl : d₁.length = d₂.length)
+    (hd : ∀ n, (lookup d₁ n).map pySorted = (lookup d₂ n).map pySorted) :
+    sortedFragmentsNames id names₁ d₁ = sortedFragmentsNames id names₂ d₂ := by
+  unfold sortedFragmentsNames
+  simp only [id]
+  rw [pySorted_eq_of_perm hn]
+  unfold dfs
+  have : ∀ fuel n st, visit (fun s => pySorted s) d₁ fuel n st = visit (fun s => pySorted s) d₂ fuel n st := by
+    intro fuel
+    induction fuel with
+    | zero => intro n st; simp [visit]
+    | succ fuel ih =>
+      intro n st
+      have hf : (fun s x => visit (fun s => pySorted s) d₁ fuel x s) = (fun s x => visit (fun s => pySorted s) d₂ fuel x s) := by
+        funext s x; exact ih x s
+      have := hd n
+      simp only [visit, hf]
+      cases h1 : lookup d₁ n <;> cases h2 : lookup d₂ n <;> simp [h1, h2] at this ⊢
+      rw [this]
+  have hf : (fun s x => visit (fun s => pySorted s) d₁ (d₁.length + 1) x s)
+      = (fun s x => visit (fun s => pySorted s) d₂ (d₂.length + 1) x s) := by
+    funext s x; rw [hl]; exact this _ x s
+  rw [hf]
+
+/-- the 5-fragment graph of finding C10-F1: `fragment Af on A { ...Gq ...Hx ...Kp ...Mm }` -/
+def f1Names : List Name := ["Af", "Gq", "Hx", "Kp", "Mm"]
+def f1Deps : Deps := [("Af", ["Gq", "Hx", "Kp", "Mm"]), ("Gq", []), ("Hx", []), ("Kp", []), ("Mm", [])]
+
+/-- (must) Regression witness of the repaired finding C10-F1: the code before 0834f0f
+    (`for dep in dependencies_dict[name]`) gives different class orders under two enumerations. -/
+theorem topo_order_depended_on_enum_before_fix :
+    ∃ e₁ e₂ : EnumOracle, EnumOK e₁ ∧ EnumOK e₂ ∧
+      sortedFragmentsNamesPreFix e₁ f1Names f1Deps = .ok ["Gq", "Hx", "Kp", "Mm", "Af"] ∧
+      sortedFragmentsNamesPreFix e₂ f1Names f1Deps = .ok ["Mm", "Kp", "Hx", "Gq", "Af"] :=
+  ⟨id, List.reverse, fun _ => List.Perm.refl _, fun s => List.reverse_perm s, by decide, by decide⟩
+
+/-- the repaired code on the same graph, under both enumerations -/
+example : sortedFragmentsNames id f1Names f1Deps = .ok ["Gq", "Hx", "Kp", "Mm", "Af"]
+    ∧ sortedFragmentsNames List.reverse f1Names f1Deps = .ok ["Gq", "Hx", "Kp", "Mm", "Af"] := by decide
+
+/-- the dependency dictionary has no cycle (GraphQL validation: NoFragmentCycles) -/
+def Acyclic (d : Deps) : Prop := ∃ rk : Name → Nat, ∀ n ds m, lookup d n = some ds → m ∈ ds → rk m < rk n
+
+/-- (must) Every fragment's classes come after the fragment classes they inherit from — for every
+    enumeration oracle, every acyclic dictionary, without any size bound. -/
+theorem topo_respects_deps (e : EnumOracle) (he : EnumOK e) (names : List Name) (d : Deps) (out : List Name)
+    (hac : Acyclic d) (h : sortedFragmentsNames e names d = .ok out) :
+    ∀ pre n post, out = pre ++ n :: post → ∀ m, m ∈ depsOf d n → m ∈ pre := by
+  obtain ⟨rk, hrk⟩ := hac
+  exact dfs_topo (fun ds x => by rw [mem_pySorted]; exact (he ds).mem_iff) rk hrk h
+
+/-- the same for the code before the fix: C10-F1 was a determinism defect, never an ordering defect -/
+theorem topo_respects_deps_before_fix (e : EnumOracle) (he : EnumOK e) (names : List Name) (d : Deps) (out : List Name)
+    (hac : Acyclic d) (h : sortedFragmentsNamesPreFix e names d = .ok out) :
+    ∀ pre n post, out = pre ++ n :: post → ∀ m, m ∈ depsOf d n → m ∈ pre := by
+  obtain ⟨rk, hrk⟩ := hac
+  exact dfs_topo (fun ds x => (he ds).mem_iff) rk hrk h
+
+/-- non-vacuity: the witness graph is acyclic and sorts -/
+example : Acyclic f1Deps := ⟨fun n => if n = "Af" then 1 else 0, by
+  intro n ds m hl hm
+  by_cases hn : n = "Af"
+  · subst hn
+    simp [f1Deps, lookup] at hl
+    subst hl
+    simp at hm
+    rcases hm with rfl | rfl | rfl | rfl <;> decide
+  · simp only [f1Deps, lookup] at hl
+    split at hl
+    · rename_i h; exact absurd h.symm hn
+    · iterate 4 (split at hl; · (cases hl; cases hm))
+      cases hl⟩
+
+/-- (should) every fragment that was asked for is emitted -/
+theorem topo_complete (e : EnumOracle) (he : EnumOK e) (names : List Name) (d : Deps) (out : List Name)
+    (h : sortedFragmentsNames e names d = .ok out) : ∀ n, n ∈ names → n ∈ out := by
+  intro n hn
+  exact dfs_complete h n ((mem_pySorted _ _).mpr ((he names).mem_iff.mpr hn))
+
+/-! ## 2. `_get_model_rebuild_calls` -/
+
+/-- (must) `sorted(top_level, key=class_names.index)`: the order in which the loop met the top-level
+    classes is irrelevant (two classes with the same index are the same class). -/
+theorem rebuild_oracle_independent (e₁ e₂ : EnumOracle) (he₁ : EnumOK e₁) (he₂ : EnumOK e₂) (top classNames : List Name)
+    (hall : ∀ t, t ∈ top → t ∈ classNames) :
+    rebuildCalls (e₁ top) classNames = rebuildCalls (e₂ top) classNames :=
+  rebuildCalls_eq_of_perm ((he₁ top).trans (he₂ top).symm) (fun t ht => hall t ((he₁ top).mem_iff.mp ht))
+
+example : rebuildCalls ["B", "A"] ["A", "X", "B"] = .ok ["A", "B"] := by decide
+
+/-! ## 3. isort's order of imported names (reference semantics Spec/Isort.lean) -/
+
+/-- (must) without a key tie the names of one from-import are determined by the SET of names -/
+theorem isort_names_oracle_independent (e₁ e₂ : EnumOracle) (he₁ : EnumOK e₁) (he₂ : EnumOK e₂) (fixed s : List Name)
+    (nt : nameTie (fixed ++ s) = false) :
+    isortNames (fixed ++ e₁ s) = isortNames (fixed ++ e₂ s) := by
+  have p₁ : (fixed ++ e₁ s).Perm (fixed ++ s) := List.Perm.append_left _ (he₁ s)
+  have p₂ : (fixed ++ e₂ s).Perm (fixed ++ s) := List.Perm.append_left _ (he₂ s)
+  apply isortNames_eq_of_perm _ (p₁.trans p₂.symm)
+  exact (noTie_of_nameTie_false nt).subset (fun a ha => p₁.mem_iff.mp ha)
+
+/-- Finding C10-F2 in the model: with a tie the set order survives the formatter. -/
+theorem isort_tie_depends_on_enum :
+    isortNames (id ["FooBar", "Foobar"]) = ["FooBar", "Foobar"] ∧
+    isortNames (List.reverse ["FooBar", "Foobar"]) = ["Foobar", "FooBar"] ∧
+    isortNames ["F01", "F1"] = ["F01", "F1"] ∧ isortNames ["F1", "F01"] = ["F1", "F01"] := by decide
+
+/-! ## 4. `FragmentsGenerator.generate` -/
+
+/-- (must) fragments.py (import summary, class order, rebuild calls), the fragment names imported by
+    `__init__.py` and the enums kept for `include_all_enums = false` do not depend on set iteration,
+    as long as no two names tie on isort's key. Errors (a mixin that was excluded: KeyError) agree too. -/
+theorem fragments_module_oracle_independent (e₁ e₂ : EnumOracle) (he₁ : EnumOK e₁) (he₂ : EnumOK e₂)
+    (defs : List (Name × DefGen)) (exclude : List Name) (keep : Name → Bool) (schemaEnums : List Name)
+    (ht : fragTie defs exclude = false) :
+    (generateFragments e₁ defs exclude).map (fmtFrag keep schemaEnums)
+      = (generateFragments e₂ defs exclude).map (fmtFrag keep schemaEnums) := by
+  simp only [fragTie, Bool.or_eq_false_iff] at ht
+  have rel := generateFragments_rel e₁ e₂ he₁ he₂ defs (ex₁ := exclude) (ex₂ := exclude) (fun _ => Iff.rfl)
+  cases h1 : generateFragments e₁ defs exclude with
+  | error err₁ =>
+    cases h2 : generateFragments e₂ defs exclude with
+    | error err₂ => rw [h1, h2] at rel; simp [ExceptRel] at rel; simp [Except.map, rel]
+    | ok o₂ => rw [h1, h2] at rel; simp [ExceptRel] at rel
+  | ok o₁ =>
+    cases h2 : generateFragments e₂ defs exclude with
+    | error err₂ => rw [h1, h2] at rel; simp [ExceptRel] at rel
+    | ok o₂ =>
+      rw [h1, h2] at rel
+      simp only [ExceptRel] at rel
+      simp only [Except.map]
+      congr 1
+      obtain ⟨s1, s2⟩ := generateFragments_ok_shape he₁ h1
+      exact fmtFrag_eq_of_equiv keep schemaEnums rel
+        (BlockNoTie.of_equiv (BlockEquiv.of_perm s1.symm) (blockNoTie_of_summaryTie_false ht.1))
+        ((noTie_of_nameTie_false ht.2).subset (fun a ha => s2.mem_iff.mp ha))
+
+/-! ## 5. operation modules, `__init__.py`, enums.py: the package -/
+
+/-- (must) `from .fragments import …` of an operation module -/
+theorem operation_imports_oracle_independent (e₁ e₂ : EnumOracle) (he₁ : EnumOK e₁) (he₂ : EnumOK e₂)
+    (pascal : Name → Name) (fm : String) (g : DefGen) (keep : Name → Bool)
+    (ht : summaryTie (opImports id pascal fm g) = false) :
+    summary keep (opImports e₁ pascal fm g) = summary keep (opImports e₂ pascal fm g) :=
+  summary_eq_of_equiv keep (opImports_equiv e₁ e₂ he₁ he₂ pascal fm g)
+    (BlockNoTie.of_equiv (opImports_equiv id e₁ enumOK_id he₁ pascal fm g) (blockNoTie_of_summaryTie_false ht))
+
+/-- The property, hash-seed part, at full strength: whatever the enumeration of sets, the package is the same. -/
+def C10_full : Prop :=
+  ∀ (keep : Name → Bool) (e₁ e₂ : EnumOracle) (x : PkgIn), EnumOK e₁ → EnumOK e₂ → emitPackage keep e₁ x = emitPackage keep e₂ x
+
+/-- theorem region: no import statement fed from a set has two names tying on isort's key (trigger of C10-F2) -/
+def Supported_10 (x : PkgIn) : Prop := ¬ (trigIsortTie x = true)
+
+/-- (must) `emit_oracle_independent` for the package model, outside the trigger of C10-F2 -/
+theorem C10_partial (keep : Name → Bool) (e₁ e₂ : EnumOracle) (he₁ : EnumOK e₁) (he₂ : EnumOK e₂) (x : PkgIn)
+    (hs : Supported_10 x) : emitPackage keep e₁ x = emitPackage keep e₂ x :=
+  emitPackage_independent keep e₁ e₂ he₁ he₂ x (by simpa [Supported_10] using hs)
+
+/-- the emitted TEXT, for any deterministic formatter back end -/
+theorem emit_text_oracle_independent {Text : Type} (render : PkgIR → Text) (keep : Name → Bool) (e₁ e₂ : EnumOracle)
+    (he₁ : EnumOK e₁) (he₂ : EnumOK e₂) (x : PkgIn) (hs : Supported_10 x) :
+    (emitPackage keep e₁ x).map render = (emitPackage keep e₂ x).map render := by
+  rw [C10_partial keep e₁ e₂ he₁ he₂ x hs]
+
+/-- witness of C10-F2: one operation spreading the fragments `fooBar` and `foobar` -/
+def f2Gen (n : Name) : DefGen := { classes := [n.capitalize], imports := [], publicNames := [n.capitalize], usedEnums := [], mixins := [] }
+def f2Input : PkgIn :=
+  { defs := [("fooBar", f2Gen "fooBar"), ("foobar", f2Gen "foobar")],
+    ops := [{ module := "q_1", gen := { classes := ["Q1"], imports := [], publicNames := ["Q1"], usedEnums := [], mixins := ["fooBar", "foobar"] }, unpacked := [] }],
+    pascal := String.capitalize, fragmentsModule := "fragments", schemaEnums := [], includeAllEnums := true,
+    otherUsedEnums := [], initBefore := [⟨1, "q_1", ["Q1"]⟩], initAfter := [] }
+
+/-- The property is false on the pinned tree (finding C10-F2). -/
+theorem C10_full_false : ¬ C10_full := by
+  intro h
+  have := h (fun _ => true) id List.reverse f2Input (fun _ => List.Perm.refl _) (fun s => List.reverse_perm s)
+  revert this
+  decide
+
+/-- non-vacuity of `C10_partial`: an input with fragments and mixins outside the trigger -/
+def okInput : PkgIn :=
+  { defs := [("Af", f2Gen "Af"), ("Gq", f2Gen "Gq")],
+    ops := [{ module := "q_2", gen := { classes := ["Q2"], imports := [], publicNames := ["Q2"], usedEnums := [], mixins := ["Af", "Gq"] }, unpacked := [] }],
+    pascal := String.capitalize, fragmentsModule := "fragments", schemaEnums := [], includeAllEnums := true,
+    otherUsedEnums := [], initBefore := [⟨1, "q_2", ["Q2"]⟩], initAfter := [] }
+
+example : Supported_10 okInput := by unfold Supported_10; decide
+
+/-- the witness is inside the trigger region (so theorem region ∪ finding region = everything) -/
+example : trigIsortTie f2Input = true := by decide
+
+/-! ## 6. file creation order -/
+
+/-- (must) `load_graphql_files_from_path`: the loaded text depends on the set of files only, not on
+    the order in which the file system lists them (hence not on their creation order). -/
+theorem files_order_independent (dirList₁ dirList₂ : List Entry → List Entry) (entries : List Entry)
+    (h₁ : (dirList₁ entries).Perm entries) (h₂ : (dirList₂ entries).Perm entries) (hd : PathsDistinct entries) :
+    loadGraphqlFiles dirList₁ entries = loadGraphqlFiles dirList₂ entries :=
+  loadGraphqlFiles_eq_of_perm entries h₁ h₂ hd
+
+example : loadGraphqlFiles id [⟨["b.graphql"], false, "B"⟩, ⟨["a", "c.gql"], false, "C"⟩, ⟨["a"], true, ""⟩, ⟨["n.txt"], false, "N"⟩]
+    = .ok "C\nB" := by decide
+
+/-! ## 7. regeneration over an existing target -/
+
+/-- (must) The write log of a run is independent of the directory it runs over and of what isort saw
+    of it, provided no formatted file is sensitive to that view (`render true = render false` on the
+    files at hand; false exactly for finding C10-F3: an absolute import through the target package). -/
+theorem regenerate_idempotent {α : Type} (render : Bool → α → String) (irs : List (Name × α))
+    (flag₁ flag₂ : Nat → Bool) (dir₁ dir₂ : Dir)
+    (insens : ∀ p, p ∈ irs → render true p.2 = render false p.2) :
+    runWrites render irs flag₁ dir₁ = runWrites render irs flag₂ dir₂ := by
+  have : ∀ b₁ b₂ p, p ∈ irs → render b₁ p.2 = render b₂ p.2 := by
+    intro b₁ b₂ p hp
+    cases b₁ <;> cases b₂ <;> simp [insens p hp]
+  unfold runWrites packageWrites
+  have hm : irs.mapIdx (fun i p => (p.1, render (flag₁ i) p.2)) = irs.mapIdx (fun i p => (p.1, render (flag₂ i) p.2)) := by
+    apply List.ext_getElem
+    · simp
+    · intro i h1 h2
+      simp only [List.getElem_mapIdx]
+      rw [this (flag₁ i) (flag₂ i) _ (List.getElem_mem _)]
+  rw [hm]
+
+/-- (should) and running it twice leaves the directory exactly as running it once -/
+theorem regenerate_same_directory (log : WriteLog) (dir : Dir) : applyLog (applyLog dir log) log = applyLog dir log := by
+  unfold applyLog
+  have key : ∀ ws : List (Name × String), ∃ (c : Name → Option String) (S : Name → Bool),
+      ∀ d x, (ws.foldl (fun d p => writeFile d p.1 p.2) d) x = if S x then c x else d x := by
+    intro ws
+    induction ws with
+    | nil => exact ⟨fun _ => none, fun _ => false, by simp⟩
+    | cons p ws ih =>
+      obtain ⟨c, S, h⟩ := ih
+      refine ⟨fun x => if S x then c x else some p.2, fun x => S x || decide (x = p.1), ?_⟩
+      intro d x
+      simp only [List.foldl_cons, h, writeFile]
+      by_cases h1 : S x = true <;> by_cases h2 : x = p.1 <;> simp [h1, h2]
+  obtain ⟨c, S, h⟩ := key log.written
+  funext x
+  rw [h, h]
+  split <;> rfl
+
+/-- Finding C10-F3 in the model: a formatter that is sensitive to isort's view gives two different logs. -/
+theorem regenerate_full_false :
+    ∃ (render : Bool → String → String) (irs : List (Name × String)) (dir : Dir),
+      runWrites render irs (fun _ => false) dir ≠ runWrites render irs (fun _ => true) (applyLog dir (runWrites render irs (fun _ => false) dir)) :=
+  ⟨fun b s => if b then "first-party:" ++ s else "third-party:" ++ s, [("input_types.py", "from gen_pkg.impl import DT")], fun _ => none, by decide⟩
+
 end Ariadne.C10
